@@ -180,6 +180,41 @@ func propC10(c *Check) {
 	rt, ok2 := w.ConstVal("config", "SnapshotReferenceThreshold")
 	rg, ok3 := w.ConstVal("config", "SnapshotRoundGap")
 	mx, ok4 := w.ConstVal("config", "KernelMaximumNodesCount")
+	// the same fact read from the code: the delay after which an accepted node enters the threshold
+	// base (ConsensusThreshold) is not longer than the delay after which it enters the key set
+	// (ConsensusReady); otherwise the key vector can hold a member the base does not count
+	delayOf := func(fn *ssa.Function, state string) (int64, bool) {
+		if fn == nil {
+			return 0, false
+		}
+		best, found := int64(0), false
+		for _, iff := range findIfs(fn, func(v ssa.Value) bool {
+			bo, ok := v.(*ssa.BinOp)
+			if !ok || bo.Op != token.LSS || !Param("timestamp")(bo.Y) {
+				return false
+			}
+			ad, ok := bo.X.(*ssa.BinOp)
+			if !ok || ad.Op != token.ADD {
+				return false
+			}
+			_, p := accessPath(ad.X)
+			_, isC := constIntOf(ad.Y)
+			return isC && len(p) > 0 && p[len(p)-1] == "Timestamp"
+		}) {
+			// restrict to the branch guarded by the named state (if any)
+			if state != "" && !dominatedByBranch(fn, iff.Block(), BinEither(token.EQL, AnyV, c.W.ConstNamed("common", state)), true) {
+				continue
+			}
+			k, _ := constIntOf(iff.Cond.(*ssa.BinOp).X.(*ssa.BinOp).Y)
+			if !found || k > best {
+				best, found = k, true
+			}
+		}
+		return best, found
+	}
+	dBase, okB := delayOf(c.W.Fn("(*kernel.Node).ConsensusThreshold"), "NodeStateAccepted")
+	dKeys, okK := delayOf(c.W.Fn("(*kernel.Node).ConsensusReady"), "")
+	c.Require(okB && okK && dBase <= dKeys, "sibling", "kernel|accepted node: base delay <= key-set delay", "an accepted node is counted in the threshold base no later than it becomes a member of the signer key set", fmt.Sprintf("base delay %d (found=%v), key-set delay %d (found=%v)", dBase, okB, dKeys, okK))
 	c.Require(ok1 && ok2 && ok3 && ap >= rt*rg, "constfact", "config|ready implies counted", "KernelNodeAcceptPeriodMinimum >= SnapshotReferenceThreshold*SnapshotRoundGap (a ready node is always counted in the base)", "constants: "+itoa(int(ap))+" vs "+itoa(int(rt*rg)))
 	c.Require(ok4 && mx <= 64, "constfact", "config|nodes fit the mask", "KernelMaximumNodesCount <= 64 (mask width)", "maximum is "+itoa(int(mx)))
 }
